@@ -141,6 +141,7 @@ func runC16(c *Ctx) {
 	}
 	c16ExtListings(c)
 	c16OwnedListings(c)
+	c16LstatFailures(c)
 	// a lister that fails part-way (an error other than io.EOF on the j-th call): the listing is not complete, and ReadDir must
 	// say so - never a shortened listing with a nil error. And a lister that hands back an empty batch without io.EOF in the
 	// middle (allowed: "ListAt ... returns the number of entries copied and an io.EOF error if we made it to the end"): the
